@@ -7,6 +7,7 @@ python3 -c "
 import sys; sys.path.insert(0,'.')
 from scyllalint import extract
 extract.build_driver()
-d, info = extract.facts_dir('default')
-print('facts:', d, info)
+for cfg in ('default', 'family'):
+    d, info = extract.facts_dir(cfg)
+    print('facts:', cfg, d, info)
 "
